@@ -255,6 +255,31 @@ func main() {
 			panic(err)
 		}
 		r := lib.NewRng(lib.Seed())
+		// histories: a dictionary whose flattened form ("{A},x,{B},y") coincides with that of an earlier dictionary
+		// used in the same process (a value containing ",{NAME}," of another parameter) must still be applied as given
+		for i := 0; i < 6; i++ {
+			rr := r.Fork()
+			n1, n2 := goodNames[rr.Intn(len(goodNames))], goodNames[rr.Intn(len(goodNames))]
+			if n1 == n2 {
+				continue
+			}
+			if n2 < n1 {
+				n1, n2 = n2, n1
+			}
+			v1, v2 := rr.Str("xyz", 1, 3), rr.Str("uvw", 1, 3)
+			text := "{" + n1 + "} {" + n2 + "} " + rr.Str("ab{}", 0, 4)
+			l := intoto.Layout{Type: "layout", Steps: []intoto.Step{{Type: "step", SupplyChainItem: intoto.SupplyChainItem{Name: "s"}, ExpectedCommand: []string{"make", text}}}}
+			for k, d := range []map[string]string{{n1: v1, n2: v2}, {n1: v1 + ",{" + n2 + "}," + v2}, {n1: v1, n2: v2}} {
+				var names []string
+				for _, nm := range []string{n1, n2} {
+					if _, ok := d[nm]; ok {
+						names = append(names, nm)
+					}
+				}
+				in := input{Layout: l, Names: names, Dict: d}
+				w.Put(lib.Case{Klass: fmt.Sprintf("history-collision-%d", k), Input: lib.MustJSON(in), Impl: runImpl(in), Oracle: oracle(in), CoqModel: coqModel(in)})
+			}
+		}
 		for i := 0; i < n; i++ {
 			in, klass := genCase(r.Fork())
 			impl := runImpl(in)
